@@ -237,6 +237,44 @@ def gen(ctx, cmds, n):
     return cases
 
 
+def directed(ctx):
+    """combinations that every run must contain, whatever the seed: each conversion over small non-negative integers held in every narrow
+    integer type with integer-valued parameters (wrap-around shows there first), and the mean-to-mid conversions with zeros ignored where
+    zero is the smallest / the largest value of the field"""
+    rng = ctx.rng
+    cases = []
+    ints = {
+        "CvtToFuzzy": [{"TrueThreshold": 4, "FalseThreshold": 1}, {"TrueThreshold": 1, "FalseThreshold": 5}, {}],
+        "CvtToBinary": [{"Threshold": 3, "Direction": "LowToHigh"}],
+        "Normalize": [{}, {"StartVal": 2, "EndVal": 0}],
+        "NormalizeZScore": [{}, {"TrueThresholdZScore": 1, "FalseThresholdZScore": -1}],
+        "CvtToFuzzyZScore": [{"TrueThresholdZScore": 1, "FalseThresholdZScore": -1}],
+        "NormalizeCat": [{"RawValues": [1, 3], "NormalValues": [2, 4], "DefaultNormalValue": 0}],
+        "CvtToFuzzyCat": [{"RawValues": [1, 3], "FuzzyValues": [1, -1], "DefaultFuzzyValue": 0}],
+        "NormalizeCurve": [{"RawValues": [1, 3, 5], "NormalValues": [0, 2, 1]}],
+        "CvtToFuzzyCurve": [{"RawValues": [1, 3, 5], "FuzzyValues": [-1, 1, 0]}],
+        "NormalizeMeanToMid": [{"IgnoreZeros": False, "NormalValues": [0, 1, 2, 3, 4]}, {"IgnoreZeros": True, "NormalValues": [0, 1, 2, 3, 4]}],
+        "CvtToFuzzyMeanToMid": [{"IgnoreZeros": True, "FuzzyValues": [-1, -0.5, 0, 0.5, 1]}],
+        "NormalizeCurveZScore": [{"ZScoreValues": [-1, 0, 1], "NormalValues": [0, 1, 2]}],
+        "CvtToFuzzyCurveZScore": [{"ZScoreValues": [-1, 0, 1], "FuzzyValues": [-1, 0, 1]}],
+    }
+    base = [[0, 1, 2, 3, 5, 4, 1], [5, 0, 0, 2, 3, 3], [2, 5, 1, 0, 4]]
+    for cmd, plist in ints.items():
+        for params in plist:
+            for vals in base:
+                mask = [False] * len(vals)
+                if rng.random() < 0.5:
+                    mask[rng.randrange(len(vals))] = True
+                for dt in (numpy.int64, numpy.int8, numpy.uint8, numpy.int16, numpy.uint16, numpy.uint32):
+                    cases.append((Case(cmd, params, [numpy.ma.array(numpy.array(vals, dtype=dt), mask=mask)]), "narrow"))
+    for cmd, key in (("NormalizeMeanToMid", "NormalValues"), ("CvtToFuzzyMeanToMid", "FuzzyValues")):
+        vals5 = [0, 0.25, 0.5, 0.75, 1] if key == "NormalValues" else [-1, -0.5, 0, 0.5, 1]
+        for vals in ([0.0, 0.0, 2.0, 3.0, 5.0, 7.0], [0.0, -1.0, -4.0, -2.0, 0.0, -7.0], [0.0, 1.5, 0.0, 4.0, 2.0], [3.0, 0.0, -2.0, 5.0, 0.0]):
+            for iz in (True, False):
+                cases.append((Case(cmd, {"IgnoreZeros": iz, key: vals5}, [numpy.ma.array(numpy.array(vals))]), "zeros"))
+    return cases
+
+
 def after_write(ctx, count):
     """the mapping a conversion computes for a field is the same before and after that field was written to a file together with other fields
     (whose missing cells differ): the statistics a conversion takes from the field (minimum, maximum, mean, deviation) are the field's own"""
@@ -283,6 +321,20 @@ def run(ctx):
     orc = numeric.combine(oracle_mapping(ctx), oracle_counterpart(ctx))
     n = ctx.budget(24, 900)
     eems.run_stream(ctx, model, gen(ctx, eems.CONVERSIONS, n), "exec:conversions", on_result=orc)
+    # directed cases: compared with the model, the reference mappings and - for the narrow integer types - with the same values held as int64
+    dcases = directed(ctx)
+    kept, outs, _ = eems.run_stream(ctx, model, [c for c, _ in dcases], "exec:conversions-directed", on_result=orc, narrow=False)
+    by64 = {}
+    for c, out in zip(kept, outs):
+        key = (c.cmd, repr(sorted(c.params.items())), repr(c.inputs[0].tolist()))
+        if c.inputs[0].dtype == numpy.int64:
+            by64[key] = out
+    for c, out in zip(kept, outs):
+        key = (c.cmd, repr(sorted(c.params.items())), repr(c.inputs[0].tolist()))
+        if c.inputs[0].dtype.kind in "iu" and c.inputs[0].dtype != numpy.int64 and key in by64:
+            d = eems._same(by64[key], out)
+            if d:
+                ctx.fail("%s: the same integer values stored as %s give a different result (%s)" % (c.cmd, c.inputs[0].dtype, d), c.describe())
     relational(ctx, ctx.budget(40, 1200))
     after_write(ctx, ctx.budget(30, 800))
     numeric.focus_search(ctx, model, lambda cmds, f: gen(ctx, [c for c in cmds if c in eems.CONVERSIONS], n * f), orc)
